@@ -153,6 +153,27 @@ def in_polygon_x(poly, seg):
 def check_layout(params):
     d = build.build(norm(params["recipe"]))
     out = []
+    if params.get("open"):
+        # what draw() lays out for a diagram with bubbles: the walls are special boxes, so only
+        # the part of the oracle that does not depend on them -- every node has a position, no
+        # port or boundary node dangles, every edge points downwards
+        from discopy.drawing import add_drawing_attributes, diagram2nx
+        o = add_drawing_attributes(d.open_bubbles())
+        graph, pos = diagram2nx(o)
+        errs = []
+        if set(pos) != set(graph.nodes):
+            errs.append("positions are not defined exactly on the nodes of the graph")
+        for n in graph.nodes:
+            if n.kind in ("input", "cod") and graph.out_degree(n) != 1:
+                errs.append("%s has %d outgoing wires" % (n, graph.out_degree(n)))
+            if n.kind in ("output", "dom") and graph.in_degree(n) != 1:
+                errs.append("%s has %d incoming wires" % (n, graph.in_degree(n)))
+        for s_, t_ in graph.edges():
+            if s_ in pos and t_ in pos and not pos[s_][1] > pos[t_][1]:
+                errs.append("edge %s -> %s does not point downwards" % (s_, t_))
+        if errs:
+            out.append((_sig("layout-open", params), "%s with its bubbles opened: %s" % (d, errs[:3])))
+        return out
     errs, graph, pos = layout_errors(d)
     if errs:
         out.append((_sig("layout", params), "%s: %s" % (d, errs[:3])))
@@ -193,6 +214,11 @@ def check_render(params):
     out = []
     if not len(d) and not len(d.dom):
         return out
+    nameless = any(not hasattr(b, "name") for b in d.boxes)    # boxes that are diagrams (foliation())
+
+    def sig_of(kind):
+        # recorded finding: a diagram whose boxes are themselves diagrams cannot be drawn
+        return "C20:render:boxes-are-diagrams" if nameless else _sig(kind, params)
     with tempfile.TemporaryDirectory(prefix="mc_c20_") as tmp:
         try:
             d.draw(to_tikz=True, path=os.path.join(tmp, "d.tikz"))
@@ -200,7 +226,7 @@ def check_render(params):
             if "\\begin{tikzpicture}" not in txt or "\\end{tikzpicture}" not in txt:
                 out.append((_sig("tikz-empty", params), "%s: TikZ output is not a tikzpicture" % (d,)))
         except Exception as e:  # noqa
-            out.append((_sig("tikz-raises", params), "%s: draw(to_tikz=True) raised %s: %s"
+            out.append((sig_of("tikz-raises"), "%s: draw(to_tikz=True) raised %s: %s"
                         % (d, type(e).__name__, str(e)[:120])))
         if params.get("matplotlib", True):
             import matplotlib.pyplot as plt
@@ -209,7 +235,7 @@ def check_render(params):
                 if os.path.getsize(os.path.join(tmp, "d.png")) == 0:
                     out.append((_sig("png-empty", params), "%s: empty image" % (d,)))
             except Exception as e:  # noqa
-                out.append((_sig("matplotlib-raises", params), "%s: draw() with matplotlib raised %s: %s"
+                out.append((sig_of("matplotlib-raises"), "%s: draw() with matplotlib raised %s: %s"
                             % (d, type(e).__name__, str(e)[:120])))
             finally:
                 plt.close("all")
@@ -266,6 +292,12 @@ def special_recipes():
     from mc import pools
     for cls in ("tensor", "circuit", "zx"):
         out += pools.recipes(cls, 2, 3)[::5]
+    # the box zoo: every box constructor x flag variant, bubbles with re-declared dom/cod,
+    # composite subclasses, foliations
+    from mc import zoo
+    for cls in zoo.CLASSES:
+        if cls != "cat":
+            out += [("zoo", cls, e) for e in zoo.entries(cls)]
     return out
 
 
@@ -305,7 +337,14 @@ def run(ctx):
     deep3 = [r for r in uni if len(r[2]) == 3]
     items += [("diagramize", dict(recipe=r)) for r in deep3[:: (3 if ctx.quick else 1)]]
     items += [("render", dict(recipe=r, matplotlib=(i % (6 if ctx.quick else 2) == 0))) for i, r in enumerate(small)]
-    items += [("render", dict(recipe=r, matplotlib=(i % 3 == 0))) for i, r in enumerate(special_recipes())]
+    items += [("render", dict(recipe=r, matplotlib=(i % 3 == 0 or r[0] == "zoo"))) for i, r in enumerate(special_recipes())]
+    # the layout oracle (one node per box and port, polygons = boxes) is the one of plain boxes:
+    # not for circuits (measure gauges, discard symbols, control dots, kets drawn bit by bit),
+    # bubbles (opened before drawing) and foliations
+    items += [("layout", dict(recipe=r)) for r in special_recipes()
+              if r[0] == "zoo" and r[1] != "circuit" and "ubble" not in r[2] and "foliation" not in r[2]
+              and all(hasattr(b, "name") for b in build.build(r).boxes)]
+    items += [("layout", dict(recipe=r, open=True)) for r in special_recipes() if r[0] == "zoo" and "ubble" in r[2]]
     items += [("diagramize", dict(recipe=r)) for r in small]
     ctx.bounds.update(arities="0..3 with i+j<=4", width=4, depth=depth)
     ctx.note("sizes", "%d layouts, %d render cases, %d diagramize cases"
